@@ -550,7 +550,12 @@ func genEntryPoints() string {
 		if i == len(rows)-1 {
 			sep = ""
 		}
-		fmt.Fprintf(&sb, "  mk_ep %s %s %s %s %s %s%s  (* %s.%s via %s *)\n", cBytes(r.recv), cBytes(r.name), r.sev, r.gated, r.skip, r.depth, sep, r.recv, r.name, r.via)
+		// ep_tail: the call chain ends in Entry.logContext, i.e. the record goes through the termination tail (C12)
+		tail := "false"
+		if strings.HasSuffix(r.via, "logContext") {
+			tail = "true"
+		}
+		fmt.Fprintf(&sb, "  mk_ep %s %s %s %s %s %s %s%s  (* %s.%s via %s *)\n", cBytes(r.recv), cBytes(r.name), r.sev, r.gated, r.skip, r.depth, tail, sep, r.recv, r.name, r.via)
 	}
 	sb.WriteString("].\n")
 	status["entry_points"] = len(rows)
